@@ -81,17 +81,13 @@ func H_C20_j2x() {
 		got, err := JsonValuesForKey(j, key)
 		want, _ := core.ValuesForKey(key)
 		vAssert(err == nil && len(got) == len(want), "j2x: JsonValuesForKey returns as many values as Map.ValuesForKey")
-		for i := range got {
-			vAssert(vDeepEq(got[i], want[i]), "j2x: JsonValuesForKey equals Map.ValuesForKey")
-		}
+		vAssert(vSameMultisetDeep(got, want), "j2x: JsonValuesForKey equals Map.ValuesForKey")
 	case 7:
 		p := "r." + key
 		got, err := JsonValuesForKeyPath(j, p)
 		want, _ := core.ValuesForPath(p)
 		vAssert(err == nil && len(got) == len(want), "j2x: JsonValuesForKeyPath returns as many values as Map.ValuesForPath")
-		for i := range got {
-			vAssert(vDeepEq(got[i], want[i]), "j2x: JsonValuesForKeyPath equals Map.ValuesForPath")
-		}
+		vAssert(vSameMultisetDeep(got, want), "j2x: JsonValuesForKeyPath equals Map.ValuesForPath")
 	case 8:
 		up := []string{"r.", "nope.", "r.c."}[vChoose(3)] + key
 		got, err := JsonUpdateValsForPath(j, key+":N", up)
